@@ -270,3 +270,102 @@ Proof.
   - now apply lex_roundtrip.
   - clear -Fq. induction Fq as [|r rows Hr _ IH]; [constructor|]. cbn [map]. constructor; [exact Hr|exact IH].
 Qed.
+
+(** ** matrix.def: the emitted text is accepted by the matrix reader and yields the scaled costs of the merged entries *)
+From Vib Require Import Proofs.CorpusProofs.
+
+Definition mline (sc : f64) (e : N * N * Z) : str :=
+  show_N (fst (fst e)) ++ 32 :: show_N (snd (fst e)) ++ 32 :: show_Z (f64_cost sc (f64_of_bits (snd e))).
+Definition set_cell (M : list (list Z)) (e : N * N * Z) (c : Z) : list (list Z) :=
+  set_nth (N.to_nat (fst (fst e))) (set_nth (N.to_nat (snd (fst e))) c (nth (N.to_nat (fst (fst e))) M [])) M.
+Definition apply_entries (sc : f64) (es : list (N * N * Z)) (M : list (list Z)) : list (list Z) :=
+  fold_left (fun M e => set_cell M e (f64_cost sc (f64_of_bits (snd e)))) es M.
+
+Lemma digits_no c s : Forall (fun x => is_digit x = true) s -> is_digit c = false -> ~ In c s.
+Proof. intros F Hc Hin. rewrite Forall_forall in F. specialize (F c Hin). congruence. Qed.
+
+Lemma show_Z_no c z : is_digit c = false -> c <> 45 -> ~ In c (show_Z z).
+Proof.
+  intros Hc H45. unfold show_Z. destruct (z <? 0)%Z.
+  - intros [E|Hin]; [congruence|]. exact (digits_no c _ (show_N_digits _) Hc Hin).
+  - apply digits_no; [apply show_N_digits|exact Hc].
+Qed.
+
+Lemma gen_matrix_lines sc m :
+  gen_matrix sc m = concat (map (fun l => l ++ [10])
+    ((show_N (fst (mg_dims m)) ++ 32 :: show_N (snd (mg_dims m))) :: map (mline sc) (fold_right insert_rl [] (mg_matrix m)))).
+Proof.
+  assert (E : forall L, flat_map (fun e => show_N (fst (fst e)) ++ 32 :: show_N (snd (fst e)) ++ 32 :: show_Z (f64_cost sc (f64_of_bits (snd e))) ++ [10]) L
+                        = concat (map (fun l => l ++ [10]) (map (mline sc) L))).
+  { intros L. rewrite flat_map_concat_map, map_map. f_equal. apply map_ext. intros e. unfold mline.
+    repeat (rewrite <- app_assoc; cbn [app]). reflexivity. }
+  unfold gen_matrix. rewrite E. cbn [map concat]. repeat (rewrite <- app_assoc; cbn [app]). reflexivity.
+Qed.
+
+Lemma mline_props sc e : no_char 10 (mline sc e) /\ no_trailing_cr (mline sc e).
+Proof.
+  unfold mline. split.
+  - unfold no_char. rewrite in_app_iff. intros [H|[H|H]]; try discriminate.
+    + exact (digits_no 10 _ (show_N_digits _) eq_refl H).
+    + rewrite in_app_iff in H. destruct H as [H|[H|H]]; try discriminate.
+      * exact (digits_no 10 _ (show_N_digits _) eq_refl H).
+      * exact (show_Z_no 10 _ eq_refl ltac:(discriminate) H).
+  - intros r Hr. match type of Hr with rev ?x = _ => assert (Hin : In 13 x) by (apply in_rev; rewrite Hr; now left) end.
+    rewrite in_app_iff in Hin. destruct Hin as [H|[H|H]]; try discriminate.
+    + exact (digits_no 13 _ (show_N_digits _) eq_refl H).
+    + rewrite in_app_iff in H. destruct H as [H|[H|H]]; try discriminate.
+      * exact (digits_no 13 _ (show_N_digits _) eq_refl H).
+      * exact (show_Z_no 13 _ eq_refl ltac:(discriminate) H).
+Qed.
+
+Lemma split_mline sc e : split_on 32 (mline sc e) =
+  [show_N (fst (fst e)); show_N (snd (fst e)); show_Z (f64_cost sc (f64_of_bits (snd e)))].
+Proof.
+  unfold mline. rewrite split_on_app by (apply digits_no; [apply show_N_digits|reflexivity]).
+  rewrite split_on_app by (apply digits_no; [apply show_N_digits|reflexivity]).
+  rewrite split_on_none by (apply show_Z_no; [reflexivity|discriminate]). reflexivity.
+Qed.
+
+Lemma matrix_body_entries sc nr nl : nr <= 65535 -> nl <= 65535 -> forall es M,
+  Forall (fun e => fst (fst e) < nr /\ snd (fst e) < nl) es ->
+  matrix_body (map (mline sc) es) nr nl M = Ok (apply_entries sc es M).
+Proof.
+  intros Hr Hl. induction es as [|e es IH]; intros M F; [reflexivity|]. inversion F as [|? ? [He1 He2] F']; subst.
+  cbn [map matrix_body]. destruct (mline sc e) as [|c0 t0] eqn:El.
+  - exfalso. unfold mline in El. pose proof (show_N_not_nil (fst (fst e))). destruct (show_N (fst (fst e))); [congruence|discriminate].
+  - rewrite <- El, split_mline. unfold parse_usize_dec. rewrite !parse_unsigned_show by (unfold USIZE_MAX; lia).
+    rewrite parse_i16_show by (pose proof (f64_cost_i16 sc (f64_of_bits (snd e))); lia).
+    destruct (N.leb_spec nr (fst (fst e))); [lia|]. destruct (N.leb_spec nl (snd (fst e))); [lia|]. cbn [orb].
+    rewrite IH by exact F'. reflexivity.
+Qed.
+
+Theorem matrix_roundtrip sc m :
+  fst (mg_dims m) <= 65535 -> snd (mg_dims m) <= 65535 ->
+  Forall (fun e => fst (fst e) < fst (mg_dims m) /\ snd (fst e) < snd (mg_dims m)) (mg_matrix m) ->
+  parse_matrix_text (gen_matrix sc m) =
+  Ok (apply_entries sc (fold_right insert_rl [] (mg_matrix m))
+        (repeat (repeat 0%Z (N.to_nat (snd (mg_dims m)))) (N.to_nat (fst (mg_dims m))))).
+Proof.
+  intros Hr Hl F. rewrite gen_matrix_lines. unfold parse_matrix_text.
+  rewrite lines_of_terminated.
+  - rewrite split_on_app by (apply digits_no; [apply show_N_digits|reflexivity]).
+    rewrite split_on_none by (apply digits_no; [apply show_N_digits|reflexivity]).
+    rewrite !parse_unsigned_show by assumption.
+    apply matrix_body_entries; try assumption.
+    (* the sorted list holds the same entries *)
+    clear -F. induction (mg_matrix m) as [|e es IH]; [constructor|]. inversion F as [|? ? He F']; subst. cbn [fold_right].
+    specialize (IH F'). revert IH. generalize (fold_right insert_rl [] es). intros l Fl.
+    induction l as [|y l IHl]; cbn [insert_rl]; [now constructor|].
+    destruct (_ || _); [now constructor|]. inversion Fl; subst. constructor; [assumption|now apply IHl].
+  - constructor.
+    + unfold no_char. rewrite in_app_iff. intros [H|[H|H]]; try discriminate.
+      * exact (digits_no 10 _ (show_N_digits _) eq_refl H).
+      * exact (digits_no 10 _ (show_N_digits _) eq_refl H).
+    + apply Forall_forall. intros l Hin. apply in_map_iff in Hin. destruct Hin as (e & <- & _). apply mline_props.
+  - constructor.
+    + intros r Hr'. assert (Hin : In 13 (show_N (fst (mg_dims m)) ++ 32 :: show_N (snd (mg_dims m)))) by (apply in_rev; rewrite Hr'; now left).
+      rewrite in_app_iff in Hin. destruct Hin as [H|[H|H]]; try discriminate.
+      * exact (digits_no 13 _ (show_N_digits _) eq_refl H).
+      * exact (digits_no 13 _ (show_N_digits _) eq_refl H).
+    + apply Forall_forall. intros l Hin. apply in_map_iff in Hin. destruct Hin as (e & <- & _). apply mline_props.
+Qed.
